@@ -15,7 +15,7 @@ for d in sorted(glob.glob(os.path.join(ROOT, 'seeded', '*', ''))):
     rows.append((mid, meta.get('summary', '')[:110].replace('|', '/'),
                  ('input, %ss' % so.get('wall_s') if so and so.get('found_input') else ('none' if so and so.get('violation') else ('MISSED' if so else '-'))),
                  first(so or f),
-                 ('%s, %ss%s' % ('input' if f.get('found_input') else 'no input', f.get('wall_s'), '; ' + (f.get('broken') or '')[:70]) if f else '')))
+                 ('%s, %ss%s' % ('input' if f.get('found_input') else 'no input', f.get('wall_s'), '; ' + str(f.get('broken') or '')[:70]) if f else '')))
 out = ["# Seeded changes and what the checks report on them", "",
        "Each change was produced by an independent sub-agent that saw only the property text and a scratch worktree; I verified each",
        "(`verified.txt`: the existing suite passes with the patch, the demonstration passes on the clean tree and fails with the patch).",
